@@ -11,9 +11,11 @@ import (
 //   - persistLoopSteps: the calls inside the `for range editLogs` body of storeVersionSet.persistEditLogs in
 //     source order; a call that sits inside a nested if-BODY / else / switch / loop of that body is prefixed
 //     "guarded:" (the init / condition of a top-level `if err := f(); err != nil` is NOT guarded: it runs on
-//     every iteration). The writer model's persist loop syncs a record iff "writer.Sync" follows
-//     "writer.Write" unguarded (BW.syncsEveryRecord): bufioEntryWriter.Sync is the only flush of the
-//     user-space buffer on that path.
+//     every iteration). Jumps are steps too: "continue" / "break" / "goto", "return-nil" (a return whose last
+//     result is the literal nil, or a bare return: a SUCCESS exit) and "return-err" (any other return). The
+//     writer model's persist loop syncs a record iff "writer.Sync" follows "writer.Write" unguarded with no
+//     jump other than an error return between them (BW.syncsEveryRecord): bufioEntryWriter.Sync is the only
+//     flush of the user-space buffer on that path.
 //   - entryWriterFlushCalls / entryWriterCloseCalls: Flush = w.Flush; Close = w.Flush, f.Close.
 //   - newEntryWriterCalls: os.Create (truncating) and bufio.NewWriterSize.
 //   - versionSetDestroyCalls: Destroy closes (= flushes) the manifest writer.
@@ -122,6 +124,22 @@ func guardedCalls(body *ast.BlockStmt) []string {
 				return false
 			case *ast.FuncLit:
 				walk(x.Body, true)
+				return false
+			case *ast.BranchStmt:
+				// continue / break / goto: whatever follows in the loop body does not run on that path
+				emit(x.Tok.String(), guarded)
+				return false
+			case *ast.ReturnStmt:
+				for _, r := range x.Results {
+					walk(r, guarded)
+				}
+				kind := "return-err"
+				if len(x.Results) == 0 {
+					kind = "return-nil"
+				} else if id, ok := x.Results[len(x.Results)-1].(*ast.Ident); ok && id.Name == "nil" {
+					kind = "return-nil"
+				}
+				emit(kind, guarded)
 				return false
 			case *ast.BinaryExpr:
 				// short-circuit operators guard their right operand
